@@ -290,3 +290,102 @@ Example C17_client_tamper_refuted :
   /\ blobs forged = blobs genuine
   /\ client_parse nob 1 forged = Ok (PS "value::sso1", PS "700000000").
 Proof. repeat split; vm_compute; reflexivity. Qed.
+
+(* ---------------------------------------------------------------- whose keys: cookies of ANOTHER handler
+   "Any cookie string not produced with this provider's keys is rejected": the theorems above give the adversary
+   every key that is not one of the handler's.  Hence the cookies of a second handler (another provider / tenant in
+   the same process, the same provider rebuilt without its key file) are refused, in every mode on both sides,
+   as soon as the two handlers share no key ... *)
+Theorem C17_foreign_keys_refused : forall btxt h1 h2 g,
+  four_modes h2 -> keys_disjoint h1 h2 -> is_ok (parse_cookie btxt h2 (g_wire h1 g)) = false.
+Proof. exact foreign_refused. Qed.
+Print Assumptions C17_foreign_keys_refused.
+
+(* ... and they are no help in forging either: parts of any number of foreign cookies F mixed with parts of the
+   handler's own cookies G2 and with anything computable from keys it does not own *)
+Theorem C17_foreign_cookies_no_help : forall btxt h2 G2 F w v typ ts,
+  four_modes h2 -> (forall g, In g G2 -> last_is space (g_typ g) = false) ->
+  (forall f, In f F -> keys_disjoint (fst f) h2) ->
+  wire_derivable (with_foreign h2 G2 F) w -> parse_cookie btxt h2 w = Ok (v, typ, ts) ->
+  exists g, In g G2 /\ rsplit1 colon (g_payload g) = Some (v, typ) /\ g_ts g = ts.
+Proof. exact foreign_mix. Qed.
+Print Assumptions C17_foreign_cookies_no_help.
+
+(* Key SOURCES.  hspec says for each key slot whether the deployment gave the key (KGiven k) or the library
+   generates it (KGen: keys/key_defs without a key file, default_crypt_config(), init_encrypter's fallbacks).
+   construct sup s n builds the handler when n draws have been made from the process's random source (sup d = the
+   key material of draw d) and returns the number of draws made afterwards.  The FRESHNESS ASSUMPTION is stated as
+   the hypothesis `draws_distinct sup` (two different draws never yield the same key material); that the real
+   library draws anew for every handler it builds — which is what makes this hypothesis about the code — is
+   checked on every run by the driver (chk_fresh: the key material of independently built real handlers shows
+   exactly the equalities of build_all under a supply of distinct draws).
+   Two handlers with generated keys, the second built after the first with anything drawing in between: *)
+Theorem C17_generated_keys_fresh : forall sup s1 s2 n n2,
+  draws_distinct sup -> all_gen s1 -> all_gen s2 -> (snd (construct sup s1 n) <= n2)%nat ->
+  let h1 := fst (construct sup s1 n) in let h2 := fst (construct sup s2 n2) in
+  keys_disjoint h1 h2 /\ keys_disjoint h2 h1.
+Proof. exact generated_disjoint. Qed.
+Print Assumptions C17_generated_keys_fresh.
+
+Theorem C17_independent_handlers_refuse : forall btxt sup s1 s2 n n2 g,
+  draws_distinct sup -> all_gen s1 -> all_gen s2 -> (snd (construct sup s1 n) <= n2)%nat ->
+  let h1 := fst (construct sup s1 n) in let h2 := fst (construct sup s2 n2) in
+  (four_modes h2 -> is_ok (parse_cookie btxt h2 (g_wire h1 g)) = false) /\
+  (four_modes h1 -> is_ok (parse_cookie btxt h1 (g_wire h2 g)) = false).
+Proof. exact independent_refuse. Qed.
+Print Assumptions C17_independent_handlers_refuse.
+
+(* the same for any two handlers of a process history (what the driver's correspondence evaluates) *)
+Theorem C17_history_independent : forall sup pre s1 mid s2 post n,
+  draws_distinct sup -> all_gen s1 -> all_gen s2 ->
+  let n1 := next pre n in
+  let n2 := next mid (n1 + ndraws s1) in
+  let h1 := fst (construct sup s1 n1) in
+  let h2 := fst (construct sup s2 n2) in
+  build_all sup (pre ++ BHandler s1 :: mid ++ BHandler s2 :: post) n
+    = (build_all sup pre n ++ h1 :: build_all sup mid (n1 + ndraws s1) ++ h2 :: build_all sup post (n2 + ndraws s2))%list
+  /\ keys_disjoint h1 h2 /\ keys_disjoint h2 h1.
+Proof. exact history_independent. Qed.
+Print Assumptions C17_history_independent.
+
+(* positive control: handlers given the same keys are the same handler whenever they are built (so the round-trip
+   theorems apply across them: a provider restarted WITH its key file keeps accepting its cookies) *)
+Theorem C17_given_keys_shared : forall sup s n n',
+  all_given s -> fst (construct sup s n) = fst (construct sup s n').
+Proof. exact given_same. Qed.
+Print Assumptions C17_given_keys_shared.
+
+(* non-vacuity: a history with two encrypter handlers (generated keys), something else drawing in between, a
+   key_defs handler (two generated keys) and two handlers given key 5; sup0 is a supply of distinct draws *)
+Definition sC := mk_hspec None None (Some KGen).
+Definition sSE := mk_hspec (Some KGen) (Some KGen) None.
+Definition sG5 := mk_hspec None None (Some (KGiven 5%nat)).
+Definition hist0 := [BHandler sC; BOther 3%nat; BHandler sC; BHandler sSE; BHandler sG5; BOther 1%nat; BHandler sG5].
+Definition accepts (hs : list handler) (i j : nat) : bool :=
+  is_ok (parse_cookie nob (nth j hs no_handler) (make_cookie (nth i hs no_handler) (PS "alice") (PS "sso") (PS "17") 0 (PS "iv"))).
+Example C17_history_nonvacuous :
+  draws_distinct sup0 /\ all_gen sC /\ all_gen sSE /\ all_given sG5
+  /\ List.map hkeys (build_all sup0 hist0 0)
+     = [[None; None; Some 1000%nat]; [None; None; Some 1004%nat]; [Some 1005%nat; Some 1006%nat; None];
+        [None; None; Some 5%nat]; [None; None; Some 5%nat]]
+  /\ List.map (fun i => List.map (accepts (build_all sup0 hist0 0) i) [0; 1; 2; 3; 4]%nat) [0; 1; 2; 3; 4]%nat
+     = [[true; false; false; false; false]; [false; true; false; false; false]; [false; false; true; false; false];
+        [false; false; false; true; true]; [false; false; false; true; true]].
+Proof.
+  split; [intros d d' H; unfold sup0; lia|].
+  split; [unfold all_gen, is_gen; cbn; repeat split; auto; fail|].
+  split; [unfold all_gen, is_gen; cbn; repeat split; auto; fail|].
+  split; [unfold all_given, is_given; cbn; repeat split; eauto; fail|].
+  split; vm_compute; reflexivity.
+Qed.
+
+(* the hypothesis `draws_distinct` is necessary: with a supply that hands out the same key material twice (a key
+   generated once per process and reused for every handler) the second handler accepts the first one's cookie *)
+Example C17_freshness_hypothesis_necessary :
+  let stale := fun _ : nat => 7%nat in
+  ~ draws_distinct stale
+  /\ List.map (fun i => List.map (accepts (build_all stale [BHandler sC; BOther 3%nat; BHandler sC] 0) i) [0; 1]%nat) [0; 1]%nat
+     = [[true; true]; [true; true]].
+Proof.
+  intro stale. split; [intro H; apply (H 0%nat 1%nat); [discriminate|reflexivity]|vm_compute; reflexivity].
+Qed.
